@@ -12,6 +12,7 @@ from vf.explore import explore_many
 JUDGE = ("vf.judges", "judge_c02")
 POLS = ["prio", "rr", "rev"]
 RUN = [["run"]] * 5 + [["stop"]]
+TWICE = [["reset"], ["step"], ["step"], ["step"], ["stop"]] + EPISODE  # two episodes from the same initial graph state
 
 
 def family_task(arg):
@@ -22,7 +23,7 @@ def family_task(arg):
 
     stats = _empty_stats()
     for key, spec, k in arg["members"]:
-        basejob = dict(spec=spec, user=EPISODE, policy="prio", rtf=0)
+        basejob = dict(spec=spec, user=EPISODE, policy="prio", rtf=0, seed=arg.get("seed", 0))
         bres = run_job(basejob)
         if not bres["finished"]:
             stats["deadlocks"] += 1
@@ -30,14 +31,14 @@ def family_task(arg):
         base = observables(basejob, bres)
         _account(stats, basejob, [], bres, dict(violations=[], outcome="base"))
         variants = [dict(policy="rr", rtf=0, user=EPISODE), dict(policy="rev", rtf=0, user=EPISODE), dict(policy=POLS[k % 3], rtf=8, user=EPISODE),
-                    dict(policy=POLS[(k + 1) % 3], rtf=0, user=RUN)]
+                    dict(policy=POLS[(k + 1) % 3], rtf=0, user=RUN), dict(policy=POLS[(k + 2) % 3], rtf=0, user=TWICE, same_eps=True)]
         for var in variants:
-            job = dict(spec=spec, baseline=base, **var)
+            job = dict(spec=spec, baseline=base, seed=arg.get("seed", 0), **var)
             res = run_job(job)
             nv = len(stats["violations"])
             _account(stats, job, [], res, judge_c02(job, res))
             for v in stats["violations"][nv:]:
-                v["key"] = f"{key}|{var['policy']}.rtf{var['rtf']}.{'run' if var['user'] is RUN else 'step'}"
+                v["key"] = f"{key}|{var['policy']}.rtf{var['rtf']}.{'run' if var['user'] is RUN else ('twice' if var.get('same_eps') else 'step')}"
     stats["sigs"] = list(stats["sigs"])
     return stats
 
@@ -68,6 +69,8 @@ def run(tier, rep):
                 deep[(hn, pol, f"rtf{rtf}", "step")] = dict(spec=sp, user=step_user, policy=pol, rtf=rtf, baseline=base)
                 deep[(hn, pol, f"rtf{rtf}", "run")] = dict(spec=sp, user=run_user, policy=pol, rtf=rtf, baseline=base)
             deep[(hn, pol, "rtf0", "override")] = dict(spec=sp, user=ovr_user, policy=pol, rtf=0, baseline=base_o)
+            if hn in ("H1", "H3") or tier == "thorough":
+                deep[(hn, pol, "rtf0", "twice")] = dict(spec=sp, user=[["reset"], ["step"], ["stop"], ["reset"], ["step"], ["step"], ["stop"]], policy=pol, rtf=0, baseline=base, same_eps=True)
     g2 = {}
     if tier == "thorough":
         for pol in ("prio", "rr"):
@@ -75,6 +78,11 @@ def run(tier, rep):
     bound = 1 if tier == "quick" else 2
     with Pool() as pool:
         tasks = [dict(members=[(n, s, i + sd) for i, (n, s) in enumerate(members[j : j + 6], start=j)]) for j in range(0, len(members), 6)]
+        dec = H.decimal_family()
+        if tier == "quick":
+            dec = [x for i, x in enumerate(dec) if (i + sd) % 3 == 0]
+        for sdd in ([sd] if tier == "quick" else [sd, sd + 1, sd + 2]):
+            tasks += [dict(members=[(n + f"#seed{sdd}", s, i + sd) for i, (n, s) in enumerate(dec[j : j + 6], start=j)], seed=sdd) for j in range(0, len(dec), 6)]
         st = _empty_stats()
         for r in pool.imap("vf.props.c02", "family_task", tasks):
             merge(st, r)
@@ -84,7 +92,7 @@ def run(tier, rep):
         if g2:
             out = explore_many(pool, g2, 1, JUDGE)
             report(rep, "schedules_G2_line_level", out, 1, JUDGE)
-    rep.section("family", dyadic_family_size=fam_size, members_run=len(members), variants_per_member=["rr", "rev", "rtf=8", "run() driver"],
+    rep.section("family", dyadic_family_size=fam_size, members_run=len(members), variants_per_member=["rr", "rev", "rtf=8", "run() driver", "two episodes from the same initial state"], decimal_family_members=len(dec),
                 harnesses=sorted(hs), quick_slice="nominal members + deviations with index = VERIF_SEED mod 72" if tier == "quick" else "full")
     for n, s in members[:2]:
         rep.sample(dict(member=n, spec=s))
